@@ -394,3 +394,22 @@ def deep_locals(body, op, depth=40, wide=False):
                     if p2:
                         stack.append((p2[0], d - 1))
     return out
+
+
+def loop_nexts(body, pred):
+    """`Iterator::next` calls (for-loop headers) whose iterated value's origins satisfy pred(leaves)"""
+    out = []
+    for c in body.find_calls(r"Iterator>::next$"):
+        L = body.origins(c.args[0], transparent=NEXT_TRANSPARENT, depth=16)
+        if pred(L):
+            out.append(c)
+    return out
+
+
+def skipped_iteration(body, nx, site_blocks):
+    """K9: witness path from the Some edge of the loop header `nx` back to the header that avoids every block in site_blocks (None if none)"""
+    some = variant_edge(body, nx, "Some")
+    seen = body.reach(0, src_edges=some, cut_blocks=list(site_blocks))
+    if nx.bb in seen:
+        return witness_path(body, seen, nx.bb)
+    return None
